@@ -35,7 +35,11 @@ impl<'a> LCL for &'a LC { open spec fn v(&self) -> int { (**self).g@ } }
 #[verifier::external_body] pub fn neg_<A: LCL>(a: A) -> (r: LC) ensures r.v() == cneg(a.v()) { unimplemented!() }
 pub struct HT { pub g: Ghost<int> }
 pub struct TngComp { pub id: Ghost<int>, pub marked_by: Ghost<Set<Edge>> }
-impl TngComp { #[verifier::external_body] pub fn contains(&self, e: Edge) -> (r: bool) ensures r == self.marked_by@.contains(e) { unimplemented!() } }
+impl TngComp {
+    #[verifier::external_body] pub fn contains(&self, e: Edge) -> (r: bool) ensures r == self.marked_by@.contains(e) { unimplemented!() }
+    /// the least edge label of the component (used for ordering / hashing components) -- UNINTERPRETED
+    #[verifier::external_body] pub fn min_edge(&self) -> (r: Edge) { unimplemented!() }
+}
 #[derive(PartialEq, Eq, Structural, Clone, Copy)]
 pub enum Bottom { Src, Tgt }
 #[derive(PartialEq, Eq, Structural, Clone, Copy)]
@@ -83,7 +87,8 @@ impl<'a> KeyIter<'a> {
             old(self).pos@ >= old(self).es@.len() ==> (final(self).pos@ == old(self).pos@ && r.is_none()),
     { unimplemented!() }
 }
-pub struct TngComplex { pub g: Ghost<int> }
+/// (only the base point is a real field here; vertices and edges are behind the assumed accessors)
+pub struct TngComplex { pub g: Ghost<int>, pub base_pt: Option<Edge> }
 impl TngComplex {
     pub uninterp spec fn has(&self, i: int, k: int) -> bool;
     pub uninterp spec fn e(&self, i: int, k: int) -> int;
@@ -100,6 +105,19 @@ impl TngComplex {
         ensures r.pos@ == 0, forall|a: int, b: int| 0 <= a < b < r.es@.len() ==> r.es@[a] != r.es@[b],
             forall|k: int| self.has(i.id@, k) <==> (exists|a: int| 0 <= a < r.es@.len() && #[trigger] r.es@[a] == k),
     { unimplemented!() }
+}
+
+impl TngComplex {
+    /// the based circle (reduced theory: it is delooped into X only) is the one that CONTAINS the base point
+    pub fn contains_base_pt(&self, c: &TngComp) -> (r: bool)
+        ensures r == marked(self.base_pt, *c),
+    //@source yui-khovanov/src/kh/internal/v2/tng_complex.rs
+    //@body impl/TngComplex/contains_base_pt
+    //@+ closure 0 typed
+    //@| e: Edge
+    //@+ closure 0
+    //@| -> (r: bool) ensures r == c.marked_by@.contains(e)
+    //@source yui-khovanov/src/kh/internal/v2/builder.rs
 }
 
 pub struct CobM { pub g: Ghost<int> }
